@@ -1461,7 +1461,7 @@ class GAM(Core, MetaTermMixin):
             alpha = (1 - width) / 2.0
             quantiles = [alpha, 1 - alpha]
         for quantile in quantiles:
-            if (quantile >= 1) or (quantile <= 0):
+            if not (0 < quantile < 1):  # also rejects NaN
                 raise ValueError(
                     'quantiles must be in (0, 1), but found {}'.format(quantiles)
                 )
